@@ -251,6 +251,9 @@ def _col_ok(col, row):
         return t == "begin repeat"
     if col == "calculation":
         return t in ("calculate", "text", "integer")
+    if col in ("label", "hint") and t == "calculate":
+        # a calculate row has no body control: its label / hint cells produce nothing, so there is no reference to resolve
+        return False
     if col in ("default", "constraint", "constraint_message", "required", "required_message", "trigger", "read_only",
                "hint", "guidance_hint"):
         # group/repeat rows do not consume these cells at all (nothing is generated from them)
@@ -1007,8 +1010,11 @@ def check_voc(case):
             sig = f"internal-exception:{out.exc}:{out.where}:osm-sheet={case['osm']}"
         elif case.get("chcol"):
             sig = f"internal-exception:internal-key-header=choices.{case['chcol'][0]}"
-        elif feat.startswith("internal-key-header=") or any(ex and ex[0] in INTERNAL_COLS for _, _, ex in case["rows"]):
-            col = next(ex[0] for _, _, ex in case["rows"] if ex and ex[0] in INTERNAL_COLS)
+        elif feat.startswith("internal-key-header="):
+            sig = f"internal-exception:{feat}"
+        elif any(f_.startswith("col=") and f_[4:] in INTERNAL_COLS for f_ in feat.split(",")):
+            # the crash needs the internal-key column (and possibly a particular type next to it): filed under the column
+            col = next(f_[4:] for f_ in feat.split(",") if f_.startswith("col=") and f_[4:] in INTERNAL_COLS)
             sig = f"internal-exception:internal-key-header={col}"
         else:
             sig = f"internal-exception:{out.exc}:{out.where}:{feat}"
